@@ -519,12 +519,15 @@ theorem mfr_body_spec (s : MultiFileReader.read.St β) (i a : Nat) (o : FileObj 
   have hnn : ¬ ((a : Int) < 0) := by omega
   have hsub : ((a : Int) - ((o.f.readN a).1.length : Int)) = ((a - (o.f.readN a).1.length : Nat) : Int) := by omega
   by_cases hlt : (o.f.readN a).1.length < a
+  -- (the test may be written on the amount before or after it is reduced: both forms are given to `simp`)
   · have hltI : ((o.f.readN a).1.length : Int) < (a : Int) := by omega
+    have hpos : (0 : Int) < ((a - (o.f.readN a).1.length : Nat) : Int) := by omega
     simp [MultiFileReader.read.loop1.body, atFile, hi, hn, hin, ho, FileObj.read, hc, ha, PyRt.unwrap, hnn,
-      PyRt.append, index?_append_last, PyRt.len, hltI, hlt, hsub]
+      PyRt.append, index?_append_last, PyRt.len, hltI, hlt, hsub, hpos]
   · have hltI : ¬ (((o.f.readN a).1.length : Int) < (a : Int)) := by omega
+    have hpos : ¬ ((0 : Int) < ((a - (o.f.readN a).1.length : Nat) : Int)) := by omega
     simp [MultiFileReader.read.loop1.body, atFile, hi, hn, hin, ho, FileObj.read, hc, ha, PyRt.unwrap, hnn,
-      PyRt.append, index?_append_last, PyRt.len, hltI, hlt, hsub]
+      PyRt.append, index?_append_last, PyRt.len, hltI, hlt, hsub, hpos]
 
 /-- a bound on the tests of the loop condition still to come -/
 def mfrMeasure (m : MFR β) (a : Nat) : Nat := if a = 0 then 0 else (m.files.length - m.index) + 1
